@@ -231,9 +231,10 @@ def Node.unregister (n : Node) (obj : String) : Except Err Node :=
   if n.handlers.contains obj then .ok { n with handlers := n.handlers.filter (· != obj) }
   else .error .unknownName
 
-/-- `_peer_context_map.get(alias)` -/
+/-- `_peer_context_map.get(alias)`; the map is a dict: a later `map[alias] = conn` overwrites, so the newest
+connection registered under an alias is the one found -/
 def Node.findPeer (n : Node) (alias : String) : Option Conn :=
-  n.conns.find? (fun c => c.inMap && c.alias == alias)
+  n.conns.reverse.find? (fun c => c.inMap && c.alias == alias)
 
 inductive Route
   | localDeliver
@@ -259,6 +260,17 @@ def Node.acceptConn (n : Node) (cid : Nat) : Node × Conn :=
   let k := n.peerCounter + 1
   let c : Conn := { cid := cid, alias := "$client_" ++ toString k, incoming := true, inMap := true }
   ({ n with peerCounter := k, conns := n.conns ++ [c] }, c)
+
+/-- `_SocketManager.remove_peer_connection` -/
+def Node.dropConn (n : Node) (cid : Nat) : Node :=
+  { n with conns := n.conns.map (fun c => if c.cid == cid then { c with inMap := false } else c) }
+
+/-- NOT the code: the alias taken from the current *number* of connections instead of the counter.  Here so that
+the consequence (an alias still in use is handed out again after a disconnect) is expressible. -/
+def Node.acceptConnByMapSize (n : Node) (cid : Nat) : Node × Conn :=
+  let k := (n.conns.filter (·.inMap)).length + 1
+  let c : Conn := { cid := cid, alias := "$client_" ++ toString k, incoming := true, inMap := true }
+  ({ n with conns := n.conns ++ [c] }, c)
 
 /-! ## the proxy side: generated stubs, request construction -/
 
